@@ -10,7 +10,7 @@ State type is opaque; the client gives
 Iterates to a fixed point (states must form a finite-height lattice)."""
 
 
-def solve(func, init, transfer, edge=None, join=None, max_iter=20000):
+def solve(func, init, transfer, edge=None, join=None, max_iter=400000):
     blocks = func.blocks
     in_state = {func.entry: init}
     work = [func.entry]
